@@ -77,6 +77,7 @@ def handleE (j : Json) : Except String Json := do
     let src ← natsOf (← j.getObjVal? "code")
     let cs := src.map Char.ofNat
     pure (Json.mkObj [("ok", jNats [PV.Stats.numLines cs, PV.Stats.numBytes cs])])
+  | "labels-compare" => do pure (Json.mkObj [("ok", ← PV.DriverRun.labelsCompare j)])
   | "wf" => do pure (Json.mkObj [("ok", ← PV.DriverRun.wf j)])
   | "addversion" =>
     let note ← natsOf (← j.getObjVal? "note")
